@@ -1195,3 +1195,87 @@ Proof.
     unfold is_reg. apply existsb_exists. exists e. split; [apply in_entries; exact He|apply N.eqb_eq; exact Hp].
   - unfold measure, cnt. simpl. lia.
 Qed.
+
+(* ------------------------------------------------------------------ 10. GC_Mark_Item finds what is registered *)
+Lemma mark_loop_shape p : forall f (l : list gslot) i j l', mark_loop f l i j p = Some l' ->
+  l' = l \/ exists k h e, at_ l k = Some (h, e) /\ ptr e = p /\ l' = upd k (Some (h, setmark e)) l.
+Proof.
+  induction f as [|f IH]; intros l i j l' H; [discriminate|]. simpl in H.
+  destruct (at_ l i) as [[h e]|] eqn:Hat.
+  - destruct (dist (length l) i h <? j); [injection H as <-; left; reflexivity|].
+    destruct (N.eqb_spec (ptr e) p) as [Hp|Hp]; simpl in H.
+    + destruct (marked e); simpl in H.
+      * apply IH in H. exact H.
+      * injection H as <-. right. exists i, h, e. auto.
+    + apply IH in H. exact H.
+  - injection H as <-. left. reflexivity.
+Qed.
+
+Lemma mark_loop_reaches hashf (l : list gslot) p i0 e0 : Core hashf l ->
+  at_ l i0 = Some (home hashf p (length l), e0) -> ptr e0 = p ->
+  forall f j, j <= dist (length l) i0 (home hashf p (length l)) -> length l - j < f ->
+    exists l', mark_loop f l (pos (length l) (home hashf p (length l)) j) j p = Some l' /\ PW l l' /\
+      exists e', at_ l' i0 = Some (home hashf p (length l), e') /\ ptr e' = p /\ marked e' = true.
+Proof.
+  intros Hc Hat0 Hp0. pose proof Hc as [HL [Hwf Huq]].
+  pose proof (at_some_lt _ _ _ _ Hat0) as Hi0.
+  set (n := length l) in *. set (hp := home hashf p n) in *.
+  assert (Hhp : hp < n) by (apply home_lt; lia).
+  set (d := dist n i0 hp).
+  assert (Hd : d < n) by (apply dist_lt; assumption).
+  induction f as [|f IH]; intros j Hj Hf; [lia|].
+  assert (Hin : pos n hp j < n) by (apply pos_lt; lia).
+  destruct (Nat.eq_dec j d) as [->|Hne].
+  - (* at the slot of the entry *)
+    destruct (mark_loop_ok hashf l p Hc (S f) (pos n hp d) d Hin ltac:(fold n; lia)) as [l' [Hl Hpw]].
+    exists l'. split; [exact Hl|]. split; [exact Hpw|].
+    destruct (mark_loop_shape p _ _ _ _ _ Hl) as [->|[k [h [e [Hk [Hpe ->]]]]]].
+    + (* nothing changed: then the entry was marked already *)
+      exists e0. split; [exact Hat0|]. split; [exact Hp0|].
+      simpl in Hl. fold n in Hl. unfold d in Hl. rewrite pos_dist in Hl by assumption. rewrite Hat0 in Hl.
+      fold hp in Hl. fold d in Hl. rewrite Nat.ltb_irrefl in Hl.
+      destruct (marked e0) eqn:Hm; [reflexivity|].
+      rewrite Hp0, N.eqb_refl in Hl. simpl in Hl. injection Hl as Hl.
+      assert (Hx : at_ (upd i0 (Some (hp, setmark e0)) l) i0 = Some (hp, setmark e0)) by (apply at_upd_eq; assumption).
+      rewrite Hl, Hat0 in Hx. injection Hx as Hx. rewrite Hx in Hm. simpl in Hm. discriminate.
+    + assert (k = i0) by (eapply Huq; eauto; congruence). subst k.
+      rewrite Hat0 in Hk. injection Hk as <- <-.
+      exists (setmark e0). split; [apply at_upd_eq; assumption|]. split; [exact Hp0|reflexivity].
+  - (* before it: the slot is occupied by another address, far enough from home *)
+    pose proof (RHL_path gentry l i0 hp e0 HL Hhp Hat0 j Hj) as Hpath. fold n in Hpath.
+    set (i := pos n hp j) in *.
+    destruct (wt_pos_some gentry l i ltac:(lia)) as [h [e Hat]].
+    rewrite (wt_some gentry _ _ _ _ Hat) in Hpath. fold n in Hpath.
+    assert (Hii : i <> i0).
+    { intros Heq. assert (H2 : pos n hp j = pos n hp d) by (unfold d; rewrite pos_dist by assumption; exact Heq).
+      apply pos_inj in H2; lia. }
+    assert (Hpe : ptr e <> p).
+    { intros Heq. apply Hii. eapply Huq; eauto. congruence. }
+    cbn [mark_loop]. fold n. rewrite Hat.
+    destruct (Nat.ltb_spec (dist n i h) j) as [|_]; [lia|].
+    destruct (N.eqb_spec (ptr e) p) as [|_]; [contradiction|]. cbn [andb].
+    unfold i. rewrite nxt_pos by lia.
+    apply IH; [fold d; lia|lia].
+Qed.
+
+(* a registered, aligned address handed to GC_Mark_Item ends up marked: the [minptr, maxptr]
+   pre-filter never rejects a registered address (this is what the bounds invariant is for) *)
+Theorem mark_item_marks_thm : forall hashf g p s, InvM hashf g -> Reg g p s -> (p mod 8 = 0)%N ->
+  exists g', mark_item hashf g p = Some (Some g') /\ PW (slots g) (slots g') /\
+    exists e', Holds (slots g') e' /\ ptr e' = p /\ root e' = s /\ marked e' = true.
+Proof.
+  intros hashf g p s H [e [[i0 [h Hat]] [Hpe Hre]]] Hal.
+  pose proof (inv_core hashf g H) as Hc. pose proof Hc as [HL [Hwf Huq]].
+  destruct (Hwf _ _ _ Hat) as [Hh Hhn]. rewrite Hpe in Hh. subst h.
+  pose proof (inv_bounds hashf g H e ltac:(exists i0, (home hashf p (length (slots g))); exact Hat)) as Hb. rewrite Hpe in Hb.
+  pose proof (at_some_lt _ _ _ _ Hat) as Hi0.
+  unfold mark_item. rewrite Hal. simpl.
+  destruct (N.ltb_spec p (minptr g)) as [|_]; [lia|]. destruct (N.ltb_spec (maxptr g) p) as [|_]; [lia|]. simpl.
+  destruct (Nat.eqb_spec (nslots g) 0) as [Hz|_]; [unfold nslots in Hz; lia|].
+  destruct (mark_loop_reaches hashf (slots g) p i0 e Hc Hat Hpe (nslots g + 2) 0 ltac:(lia) ltac:(unfold nslots; lia))
+    as [l' [Hl [Hpw [e' [Hat' [Hpe' Hm']]]]]].
+  rewrite pos_0 in Hl by assumption. unfold nslots in *. rewrite Hl.
+  eexists. split; [reflexivity|]. split; [exact Hpw|]. exists e'. simpl. split; [exists i0, (home hashf p (length (slots g))); exact Hat'|].
+  split; [exact Hpe'|]. split; [|exact Hm'].
+  pose proof (PW_at _ _ i0 Hpw) as Hs. rewrite Hat, Hat' in Hs. inversion Hs; subst. congruence.
+Qed.
